@@ -36,7 +36,16 @@ Definition cfg_fixed : cfg := mkCfg true true true true true.
 Definition cfg_ge_now (c : cfg) : Prop :=
   fix_store c = true /\ fix_counts c = true /\ fix_locfail c = true /\ fix_grid c = true.
 
-Record env := mkEnv { e_cfg : cfg; e_cap : Z; e_fuel : nat }.
+(* proposed fixes, not in the code yet (fixes/C09_11 ..): the code as it is now has them all off *)
+Record pcfg := mkP {
+  fix_rule : bool;    (* C09_11: Rule reader checks the root descriptor, the result of the tree construction and its completeness *)
+  fix_neigh : bool;   (* C09_12: ANeigh refuses a space dimension larger than the file *)
+  fix_vario : bool;   (* C09_13: Vario reader refuses calculation types that end the process, directions that are not added, result arrays larger than the file *)
+  fix_model : bool    (* C09_14: Model reader turns an exception of the covariance setters into a failure *)
+}.
+Definition p_none : pcfg := mkP false false false false.
+Definition p_all : pcfg := mkP true true true true.
+Record env := mkEnv { e_cfg : cfg; e_cap : Z; e_fuel : nat; e_flen : Z; e_prop : pcfg }.
 
 (* linear-time list reversal (List.rev is quadratic); frev l = rev l is Model-independent: List.rev_alt *)
 Definition frev {A} (l : list A) : list A := rev_append l [].
